@@ -245,7 +245,7 @@ class Sandbox:
                            stdout=subprocess.PIPE, stderr=subprocess.PIPE, text=True, timeout=timeout)
         return Result(p.returncode, p.stdout, p.stderr)
 
-    def gwf(self, args, cwd=None, input=None, sub=False, timeout=120):
+    def gwf(self, args, cwd=None, input=None, sub=False, timeout=120, limit=120):
         cwd = cwd or self.proj
         if sub:
             p = subprocess.run(
@@ -259,7 +259,7 @@ class Sandbox:
                 timeout=timeout,
             )
             return Result(p.returncode, p.stdout, p.stderr)
-        return gwf_inproc(args, cwd, self.bin, input)
+        return gwf_inproc(args, cwd, self.bin, input, limit)
 
 
 KILLING_WRITER = r"""
@@ -325,7 +325,7 @@ def _has_main():
     return os.path.exists(os.path.join(os.path.dirname(gwf.__file__), "__main__.py"))
 
 
-def gwf_inproc(args, cwd, bindir=None, input=None):
+def gwf_inproc(args, cwd, bindir=None, input=None, limit=120):
     """gwf.cli.main through click's test runner, in this process."""
     from click.testing import CliRunner
 
@@ -341,8 +341,15 @@ def gwf_inproc(args, cwd, bindir=None, input=None):
     if bindir:
         os.environ["PATH"] = bindir + os.pathsep + _ORIG_PATH
     os.environ["NO_COLOR"] = "1"
+    from .common import GwfTimeout, time_limit
+
+    timed_out = None
     try:
-        r = CliRunner().invoke(main, list(args), input=input, catch_exceptions=True)
+        try:
+            with time_limit(limit):
+                r = CliRunner().invoke(main, list(args), input=input, catch_exceptions=True)
+        except GwfTimeout as exc:
+            timed_out = exc
     finally:
         os.chdir(old_cwd)
         os.environ["PATH"] = old_path
@@ -356,6 +363,8 @@ def gwf_inproc(args, cwd, bindir=None, input=None):
                 f = getattr(sys.modules[m], "__file__", None) or ""
                 if "gwfverif-" in f:
                     del sys.modules[m]
+    if timed_out is not None:
+        return Result(-98, "", "gwf did not return within %d s" % limit, timed_out)
     exc = r.exception if r.exception is not None and not isinstance(r.exception, SystemExit) else None
     return Result(r.exit_code, r.stdout, r.stderr, exc)
 
